@@ -73,10 +73,14 @@ Replay(s, called, rs, acc) ==
            c == Call(r.m, r.k, r.id)
        IN IF c.m = "dereg" /\ c.k = "c" /\ c.id \in acc.pruned /\ c \notin called /\ ~Has(s.chks, c.id)
              /\ ({SvcCall(s, id) : id \in PendSvcs(s)} \ called) = {}
-          THEN \* the specification is silent on whether a check removed by the cascade of its service is dropped at
-               \* once or deregistered on its own later in the same pass: accept the extra call (it changes nothing)
+          THEN \* the specification is silent on whether the pending deregistration of a check is dropped when its
+               \* service is deregistered (PrunedBy) or issued on its own later in the same pass (the code since
+               \* bccac55): accept the call.  It IS an attempt to remove the row (DeniedRetried) and, when refused,
+               \* a refusal covering the entry (NoFalseInSync).
                Replay(IF Cls(r.got) = "ok" THEN DeregChk(s, c.id) ELSE s, called \cup {c}, Tail(rs),
-                      [acc EXCEPT !.allok = @ /\ Cls(r.got) = "ok", !.anyerr = @ \/ Cls(r.got) = "err"])
+                      [acc EXCEPT !.allok = @ /\ Cls(r.got) = "ok", !.anyerr = @ \/ Cls(r.got) = "err",
+                                  !.attempted = @ \cup {<<"c", c.id>>},
+                                  !.denied = IF Cls(r.got) = "denied" THEN @ \cup {<<"c", c.id>>} ELSE @])
           ELSE IF c \notin NextCalls(s, called, acc.aborted)
           THEN [acc EXCEPT !.st = s, !.bad = @ \cup {"rpc-seq"}]                                        \* a call the code sections do not make here
           ELSE LET g == Cls(r.got)
